@@ -666,6 +666,7 @@ func (e *Env) call(n *Node, hint *Sym) *Sym {
 		if isLit(n.Args[1]) && !isLit(n.Args[2]) {
 			a = e.eval(n.Args[1], b)
 		}
+		a, b = e.unifyNum(a, b, n)
 		return iteSym(c, a, b)
 	case "store":
 		a := e.eval(n.Args[0], nil).term()
